@@ -19,7 +19,7 @@ LEVEL = "exploration"
 RULE = ("random descriptions over 1-3 variables (all selected; entity() for one variable, set_of() otherwise; joins, "
         "negation, predicates; depth<=3), rejection-sampled on the oracle count so that the three outcome classes "
         "{0, 1, >=2 solutions} are about equally frequent; a quarter of the cases range over objects with VALUE equality "
-        "of which several are equal to each other (solutions are counted by identity); each description is evaluated three times with the(...) and "
+        "of which several are equal to each other (solutions are counted by identity); some cases give no domain at all, so the variables range over the registry, which holds instances of a subclass and of a subclass of the subclass; some use the predicate-form spelling the(T(From(d), f=v)); each description is evaluated three times with the(...) and "
         "once with an(...), under ambient mode none / query / rule, caching on and off. Non-trivial: every case (each "
         "has a definite expected outcome class); distinct by structural hash; classes are counted separately.")
 LEVEL_TEXT = ("Reference-model monitoring of the outcome class and value of the(...).evaluate() against the oracle count and "
@@ -37,7 +37,7 @@ def plan(tier, seed):
 def floors(tier):
     return {"distinct_nontrivial": 500, "cls:n=0": 300, "cls:n=1": 300, "cls:n>=2": 300, "cls:form:entity": 200,
             "cls:form:set_of": 300, "cls:form:predform": 100, "cls:ambient:query": 100, "cls:ambient:rule": 100, "cls:caching_off": 200,
-            "cls:equal_valued_distinct_objects": 300, "cls:domain_without_instances_of_the_type": 100, "cls:solutions_equal_by_value": 50,
+            "cls:equal_valued_distinct_objects": 300, "cls:domain_without_instances_of_the_type": 100, "cls:solutions_equal_by_value": 50, "cls:no_domain_registry_with_subclass_instances": 150,
             "re:The(@.*)?\\.enter": 0}
 
 
@@ -82,6 +82,12 @@ def cases(spec, ctx):
             # the supplied domain holds no instance of the variable's type (empty, or only objects of another type) while
             # instances of the type exist elsewhere: zero solutions
             best["domain_override"] = [rng.randrange(len(best["kinds"])), rng.choice(["empty", "other_type"])]
+        elif set(best["kinds"]) <= {"P", "Q"} and rng.random() < 0.15:
+            # no domain given: the variables range over the registry, where instances of a subclass and of a subclass of
+            # the subclass are instances of the type as well
+            best["registry"] = True
+            for o in best["world"]["P"]:
+                o["cls"] = rng.choice([0, 1, 2, 2])
         best["ambient"] = rng.choice(["none", "none", "query", "rule"])
         best["caching"] = rng.random() < 0.7
         yield best
@@ -103,6 +109,8 @@ def _doms(case, world):
         i, how = case["domain_override"]
         other = "Q" if case["kinds"][i] != "Q" else "P"
         doms[i] = [] if how == "empty" else list(world[other])
+    if case.get("registry"):
+        doms = [None] * len(doms)
     return doms
 
 
@@ -148,6 +156,8 @@ def check_case(case, ctx):
     exp_rows = [] if case.get("domain_override") else multi.expected(case, world)
     if case.get("domain_override"):
         ctx.cls("cls:domain_without_instances_of_the_type")
+    if case.get("registry"):
+        ctx.cls("cls:no_domain_registry_with_subclass_instances")
     n = len(exp_rows)
     ctx.cls("cls:n=0" if n == 0 else "cls:n=1" if n == 1 else "cls:n>=2")
     ctx.cls("cls:form:" + case["form"])
